@@ -121,3 +121,4 @@ Example c21_example :
   kvs (final w_ev empty_st (firstn 9 w_clean)) <> [] /\
   final w_ev empty_st w_clean = empty_st.
 Proof. exact c21_clean_is_quiet. Qed.
+Print Assumptions c21_example.
